@@ -44,9 +44,15 @@ class CollectionValue(GenericValue):
 
         if self._ast_node is None:
             elements = [None] * len(self._old_value)
-        else:
-            assert isinstance(self._ast_node, ast.List)
+        elif isinstance(self._ast_node, (ast.List, ast.Tuple)) and not any(
+            isinstance(e, ast.Starred) for e in self._ast_node.elts
+        ):
             elements = self._ast_node.elts
+        else:
+            # `x in snapshot(...)` with something other than a list display
+            # (a call, a set, a string, star-expressions): there are no elements
+            # which could be edited
+            return
 
         for old_value, old_node in zip(self._old_value, elements):
             if old_value not in self._new_value:
